@@ -9,7 +9,7 @@ sys.path.insert(0, os.path.dirname(os.path.abspath(__file__)))
 import c02_helpers as H
 
 Unsupported = H.Unsupported
-PARAMS = {"key": "PKey", "value": "PValue", "default": "PDefault", "E": "PE", "F": "PF", "other": "PE"}
+PARAMS = {"key": "PKey", "value": "PValue", "default": "PDefault", "E": "PE", "F": "PF", "other": "PE", "values": "PE"}
 COUNTERS = {"hit_count": "CHit", "miss_count": "CMiss", "soft_miss_count": "CSoft"}
 METHODS = [("LRI", "__setitem__", "genm_setitem", ["self", "key", "value"], []),
            ("LRI", "__getitem__", "genm_getitem_lri", ["self", "key"], []),
@@ -27,7 +27,9 @@ METHODS = [("LRI", "__setitem__", "genm_setitem", ["self", "key", "value"], []),
            ("LRI", "__eq__", "genm_eq", ["self", "other"], []),
            ("LRI", "__ne__", "genm_ne", ["self", "other"], []),
            ("LRI", "copy", "genm_copy", ["self"], []),
-           ("LRI", "__copy__", "genm_copy_module", ["self"], [])]
+           ("LRI", "__copy__", "genm_copy_module", ["self"], []),
+           ("LRI", "__init__", "genm_init", ["self", "max_size", "values", "on_miss"],
+            ["DEFAULT_MAX_SIZE", "None", "None"])]
 
 
 def _self_attr(node, name=None):
@@ -100,6 +102,10 @@ class _Method:
             return "(XNot %s)" % self.expr(e.operand)
         if isinstance(e, ast.Constant) and e.value is True:
             return "XTrue"
+        if ast.unparse(e) == "max_size <= 0" and "max_size" in self.params:
+            return "XMaxSizeNotPositive"
+        if ast.unparse(e) == "on_miss is not None and (not callable(on_miss))" and "on_miss" in self.params:
+            return "XOnMissNotCallable"
         if _self_attr(e, "max_size"):
             return "XMaxSize"
         if isinstance(e, ast.Compare) and len(e.ops) == 1 and len(e.comparators) == 1:
@@ -185,7 +191,19 @@ class _Method:
                 return "MTry %s %s %s" % (self.block(s.body), self.block(s.handlers[0].body), self.block(s.orelse))
             self.bad("try", s)
         if isinstance(s, ast.If):
+            if isinstance(s.test, ast.Name) and s.test.id == "values" and "values" in self.params:
+                return "MIf (XTruthy (XParam PE)) %s %s" % (self.block(s.body), self.block(s.orelse))
             return "MIf %s %s %s" % (self.expr(s.test), self.block(s.body), self.block(s.orelse))
+        if (isinstance(s, ast.Raise) and isinstance(s.exc, ast.Call) and isinstance(s.exc.func, ast.Name)
+                and s.exc.func.id in ("ValueError", "TypeError") and s.cause is None):
+            return "MRaiseExn %s" % s.exc.func.id
+        if isinstance(s, ast.Assign) and self.fn.name == "__init__":
+            tg = [ast.unparse(t) for t in s.targets]
+            val = ast.unparse(s.value)
+            if tg == ["self.hit_count", "self.miss_count", "self.soft_miss_count"] and val == "0":
+                return "MZeroCounters"
+            if (tg, val) in ((["self.max_size"], "max_size"), (["self._lock"], "RLock()"), (["self.on_miss"], "on_miss")):
+                return "MSetConfig"
         if isinstance(s, ast.Assign):
             if (len(s.targets) == 1 and isinstance(s.targets[0], ast.Name) and _self_attr(s.value, "__setitem__")):
                 self.alias_setitem = s.targets[0].id
